@@ -369,6 +369,17 @@ func (l *Locks) transfer(f *ssa.Function, in ssa.Instruction, st LockState, repo
 				}
 			}
 		}
+		if ph, isPhi := cc.Value.(*ssa.Phi); isPhi && !cc.IsInvoke() && contribute != nil {
+			// one of several literals remembered in a local function variable
+			// and called here: each of them runs with what is held here
+			for _, e := range ph.Edges {
+				if mc, isMC := e.(*ssa.MakeClosure); isMC && selectedAndCalled(mc) == ph {
+					if lit, ok := mc.Fn.(*ssa.Function); ok && l.p.isModuleFunc(lit) {
+						contribute(lit, st)
+					}
+				}
+			}
+		}
 		if cal := Callee(cc); cal != nil {
 			cal = Unwrap(cal)
 			if l.p.isModuleFunc(cal) && cal.Blocks != nil {
@@ -414,7 +425,7 @@ func (l *Locks) transfer(f *ssa.Function, in ssa.Instruction, st LockState, repo
 			// a literal that is only ever called directly right here gets
 			// the state of its call sites (handled at the Call); any other
 			// use means it may run anywhere: nothing held.
-			if !onlyCalledDirectly(x) && CallbackOf(x) == nil {
+			if !onlyCalledDirectly(x) && CallbackOf(x) == nil && selectedAndCalled(x) == nil {
 				contribute(fn, LockState{})
 			}
 		}
@@ -630,3 +641,56 @@ func (l *Locks) StateStr(st LockState) string {
 
 // Keys lists the mutexes discovered.
 func (l *Locks) Keys() []LockKey { return append([]LockKey{}, l.keys...) }
+
+// selectedAndCalled: the literal's only use is as an edge of one phi (a local
+// function variable assigned per branch), all of whose edges are literals and
+// whose only uses are direct calls in the same function.  It returns that phi.
+func selectedAndCalled(mc *ssa.MakeClosure) *ssa.Phi {
+	refs := mc.Referrers()
+	if refs == nil {
+		return nil
+	}
+	var ph *ssa.Phi
+	for _, r := range *refs {
+		switch u := r.(type) {
+		case *ssa.Phi:
+			if ph != nil && ph != u {
+				return nil
+			}
+			ph = u
+		case *ssa.DebugRef:
+		default:
+			return nil
+		}
+	}
+	if ph == nil || ph.Referrers() == nil {
+		return nil
+	}
+	for _, e := range ph.Edges {
+		if _, ok := e.(*ssa.MakeClosure); !ok {
+			return nil
+		}
+	}
+	n := 0
+	for _, r := range *ph.Referrers() {
+		switch u := r.(type) {
+		case *ssa.Call:
+			if u.Call.Value != ssa.Value(ph) {
+				return nil
+			}
+			for _, a := range u.Call.Args {
+				if a == ssa.Value(ph) {
+					return nil
+				}
+			}
+			n++
+		case *ssa.DebugRef:
+		default:
+			return nil
+		}
+	}
+	if n == 0 {
+		return nil
+	}
+	return ph
+}
